@@ -117,12 +117,6 @@ Qed.
 Lemma fhead_offsets l hd n h : fhead l hd n h -> n < h /\ h <= length hd.
 Proof. intros H. destruct H; norm_len; lia. Qed.
 
-Lemma brace_free_hd_nlb A B : brace_free A -> A <> [] -> hd_ok nlb (A ++ B).
-Proof.
-  intros HA Hne. destruct A as [|t A]; [congruence|]. cbn [app hd_ok].
-  inversion HA as [|? ? [H1 _] _]; subst. unfold nlb. rewrite H1. reflexivity.
-Qed.
-
 Lemma brace_free_sym_at P A R k : brace_free A -> length P <= k < length P + length A ->
   sym_at (P ++ A ++ R) k lbrace = false /\ sym_at (P ++ A ++ R) k rbrace = false.
 Proof.
@@ -131,6 +125,4 @@ Proof.
   apply nth_error_In in E. unfold brace_free in HA. rewrite Forall_forall in HA. apply HA in E. exact E.
 Qed.
 
-Lemma simple_stmt_nonempty s : simple_stmt s -> s <> [].
-Proof. intros (body & semi & -> & _ & _). destruct body; discriminate. Qed.
 
